@@ -68,6 +68,9 @@ type Entry struct {
 	Encode    func(v any) []byte                              // v is the pointer returned by New/Gen/Decode
 	Decode    func(b []byte) (any, error)                     // error = d.Err()
 	DecodeN   func(b []byte) (v any, consumed int, err error) // also reports how many bytes the decoder consumed
+	// DecodeInto decodes into an existing value (a pointer obtained from New/Gen/Decode), as a caller does that
+	// reuses one variable for successive messages; nil where the entry has no such form.
+	DecodeInto func(dst any, b []byte) error
 	Gen       func(rng *rand.Rand, o *valgen.Opts) any        // a generated in-domain value (pointer)
 	Normalise func(v any)                                     // all documented lossy normalisations, in place
 	// MultiproofTxns returns the transaction sets that are encoded in multiproof form (nil otherwise).
@@ -171,6 +174,10 @@ func std[T any, PT interface {
 		n, err := decodeWith(b, PT(v).DecodeFrom)
 		return v, n, err
 	}
+	e.DecodeInto = func(dst any, b []byte) error {
+		_, err := decodeWith(b, PT(dst.(*T)).DecodeFrom)
+		return err
+	}
 	for _, m := range mods {
 		m(&e)
 	}
@@ -233,6 +240,13 @@ func gw[T any, PT interface {
 		}
 		return v, len(b) - r.Len(), err
 	}
+	e.DecodeInto = func(dst any, b []byte) error {
+		r := bytes.NewReader(b)
+		if request {
+			return gateway.VerifDecodeRequest(PT(dst.(*T)), r)
+		}
+		return gateway.VerifDecodeResponse(PT(dst.(*T)), r)
+	}
 	e.Normalise = func(v any) { drop(v.(*T)) }
 	e.Notes = "fields of the other direction are not transmitted (the generator leaves them zero, except in 1 of 8 values)"
 	e.postGen = func(rng *rand.Rand, v any) {
@@ -278,6 +292,12 @@ func obj4[T any, PT interface {
 		r := bytes.NewReader(append([]byte{0}, b...))
 		err := rhp4.ReadResponse(r, PT(v))
 		return v, len(b) + 1 - r.Len() - 1, err
+	}
+	e.DecodeInto = func(dst any, b []byte) error {
+		if isErr {
+			return rhp4.ReadRequest(bytes.NewReader(b), PT(dst.(*T)))
+		}
+		return rhp4.ReadResponse(bytes.NewReader(append([]byte{0}, b...)), PT(dst.(*T)))
 	}
 	e.Notes = "encoded/decoded through rhp4.WriteResponse/ReadResponse (1 framing byte stripped)"
 	for _, m := range mods {
